@@ -188,6 +188,12 @@ type FX struct {
 	domainAll T            // all of them (invariants, asserts)
 	safeClause bool
 	failN     int
+	inlineDepth int
+	inlineStack []*ssa.Function
+	inlineRets  []inlineRet
+	inlinedIn   *FX
+	lineBase    int
+	callerLoop  *loopInfo
 	chainCache map[string]chainRes
 	jsSets    [][2]T
 	warnings  []string
